@@ -661,9 +661,18 @@ def encTop (top : Top) (ver : Int) (v : Val) : Option Bytes :=
     | _, _ => none
   | _, _ => enc ver false top.ty v
 
+/-- `StickyMemberMetadata.readFrom` (hand written, api.go): no version anywhere; the assignments are read as at v0 and a
+generation follows iff bytes remain (`if len(b.Src) > 0 { s.Generation = b.Int32() } else { s.Generation = -1 }`). -/
+def decSticky (top : Top) (src : Bytes) : Res Val :=
+  (dec { ver := 0, cap := src.length } false top.ty src).andThen fun v r =>
+    match v, r with
+    | .stru (.cons a _) unk, _ :: _ => (readInt 4 m32 r).map fun g => .stru (.cons a (.cons (.int g) .nil)) unk
+    | v, r => .ok v r
+
 /-- `ReadFrom` of a named definition on the whole input (`with version field` definitions take their version from the first
 two bytes). The result is an error unless the reader is still valid at the end; trailing bytes are ignored as in Go. -/
 def decTop (top : Top) (ver : Int) (src : Bytes) : Res Val :=
+  if top.name == "StickyMemberMetadata" then decSticky top src else
   let ver := if top.withVersion then match readInt 2 m16 src with | .ok v _ => v | _ => 0 else ver
   let c : Cfg := { ver := ver, cap := src.length }
   match top.raw with
